@@ -362,6 +362,9 @@ def normalize_url(
             qsl = sorted(qsl, key=qsl_sort_key)
 
     # Dropping fragment if it's not routing
+    # NOTE: unescaping first, "#%21/route" is routing too
+    fragment = safely_unquote_fragment(fragment)
+
     if fragment and strip_fragment:
         if strip_fragment is True or not should_strip_fragment(fragment):
             fragment = ""
@@ -417,8 +420,6 @@ def normalize_url(
         qsl = safely_quote_qsl(qsl)
 
     query = safe_serialize_qsl(qsl)
-
-    fragment = safely_unquote_fragment(fragment)
 
     if quoted:
         fragment = safely_quote(fragment)
